@@ -27,7 +27,8 @@ from fractions import Fraction
 from harness.common import HarnessError
 
 DRIVERS = ["drv_c03"]
-RULE = ("a case is one (expression tree, parenthesisation) pair printed to Modelica text, or one literal lexeme, or one "
+RULE = ("a case is one (expression tree, parenthesisation) pair printed to Modelica text, or one literal lexeme, or one set "
+        "of literals parsed together (strings spelled like the numbers / Booleans beside them), or one "
         "token string of the malformed stream; non-trivial = the tree has at least two operator nodes (binary, unary, "
         "power, if) and a defined value in at least one of the six environments, or (literals) the lexeme is not a "
         "single digit; distinct = distinct text")
@@ -363,7 +364,7 @@ BOT = ("undefined",)
 def U(name, *args):
     """A fixed total function per uninterpreted symbol (any interpretation is as good as another for a precedence
     check; this one is injective enough to tell groupings apart)."""
-    h = int(hashlib.sha1(repr((name,) + tuple(str(a) for a in args)).encode()).hexdigest()[:12], 16)
+    h = int(hashlib.sha1(repr((name,) + tuple((type(a).__name__, str(a)) for a in args)).encode()).hexdigest()[:12], 16)
     return Fraction(h % 397 - 198, 1 + (h // 397) % 5)
 
 
@@ -708,6 +709,9 @@ def gen_string(rng, tail_backslash_ok=False):
     """Content of a string literal: plain characters and escape sequences (kept verbatim by pymoca: no unescaping),
     escapes at the start, in the middle and at the END with good probability (a content ending in an escaped
     backslash included: finding C03-F2, fixed by ee937b8)."""
+    if rng.random() < 0.15:
+        # a content spelled like another literal (the unit string "1", "true", "2.5" …)
+        return rng.choice(["1", "0", "2", "3", "1.0", "2.5", "true", "false", "1e3", "12", "7", "100", "0.5"])
     n = rng.randint(0, 6)
     pieces = []
     for _ in range(n):
@@ -1112,9 +1116,62 @@ def check_empty_call(ctx, drv, tree):
                 ctx.disagreement("ast", case, model=canon_expected(ans["expected"]), impl=canon(node))
 
 
+def gen_litset(rng):
+    """Several literals for ONE parse: numbers / Booleans together with string literals whose content is spelled like
+    them (and like each other), duplicates included, in random order."""
+    base = []
+    for _ in range(rng.randint(1, 3)):
+        r = rng.random()
+        if r < 0.45:
+            base.append(["num", gen_int_lexeme(rng)])
+        elif r < 0.8:
+            base.append(["num", gen_real_lexeme(rng)])
+        else:
+            base.append(["bool", rng.random() < 0.5])
+    lits = list(base)
+    for b in base:
+        spelled = tok_text(b)
+        if rng.random() < 0.8:
+            lits.append(["str", spelled])
+        if rng.random() < 0.3:
+            lits.append(list(b))
+        if b[0] == "num" and rng.random() < 0.3:
+            lits.append(["num", spelled + ".0" if spelled.isdigit() else spelled.lower()])
+    if rng.random() < 0.4:
+        lits.append(["str", gen_string(rng)])
+    rng.shuffle(lits)
+    return lits[:7]
+
+
+def lit_expected(lit):
+    kind, lex = lit
+    if kind == "num":
+        return lit_canon(lex)
+    return [kind, lex]
+
+
+def check_litset(ctx, drv, lits):
+    """Every literal OCCURRENCE of one parse keeps its own type and value, whatever other literals the text has."""
+    tree = ["call", "f", [list(x) for x in lits]]
+    text = text_of(mprint(tree, 0))
+    case = {"kind": "litset", "tree": tree, "text": text}
+    st, node = impl_parse(text)
+    from pymoca import ast
+    if st == "ok" and isinstance(node, ast.Expression) and len(node.operands) == len(lits):
+        for i, (lit, op) in enumerate(zip(lits, node.operands)):
+            want, got = lit_expected(lit), canon(op)
+            if want != got:
+                ctx.violation("literal occurrence not parsed to its own exact value / type", dict(case, position=i),
+                              expected=want, observed=got)
+                break
+    check_tree(ctx, drv, tree, "litset")
+
+
 def check_case(ctx, drv, c):
     k = c.get("kind")
-    if k in ("tree", "pairs", "strtail"):
+    if k == "litset":
+        check_litset(ctx, drv, c["tree"][2])
+    elif k in ("tree", "pairs", "strtail"):
         check_tree(ctx, drv, c["tree"], k)
     elif k == "tokens":
         check_tokens(ctx, drv, c["tokens"])
@@ -1519,6 +1576,15 @@ def run(ctx):
                 "0.30000000000000004", "123456789012345678901234567890", "4.9e-324", "1.7976931348623157e308", "2.5e-1"]:
         ctx.count("literal-fixed")
         check_literal(ctx, drv, "num", lex)
+    # several literals in one parse: strings spelled like numbers / Booleans next to them, both orders
+    for lits in ([["str", "1"], ["num", "1"]], [["num", "1"], ["str", "1"]], [["str", "true"], ["bool", True]],
+                 [["bool", False], ["str", "false"]], [["num", "2.5"], ["str", "2.5"], ["num", "2.5"]],
+                 [["str", "1e3"], ["num", "1e3"], ["num", "1E3"], ["num", "1000"]], [["num", "1"], ["num", "1.0"], ["str", "1.0"]]):
+        ctx.count("stream-litset")
+        check_litset(ctx, drv, lits)
+    for i in range(120 if quick else 3000):
+        ctx.count("stream-litset")
+        check_litset(ctx, drv, gen_litset(rng))
     for lex in FIXED_STRINGS:
         ctx.count("literal-fixed-str")
         check_literal(ctx, drv, "str", lex)
